@@ -286,6 +286,10 @@ func runGenerated(c *engine.Ctx, doSet func(name string, mods map[string]string)
 		sb = 3
 	}
 	all := c18.GenSchemas(sb)
+	// every schema a second time with names that are unique among siblings only
+	for _, g := range all[:len(all):len(all)] {
+		all = append(all, c18.RenameShared(g))
+	}
 	n := 0
 	for gi, g := range all {
 		if c.Expired() {
